@@ -3601,6 +3601,10 @@ impl CanonicalizeContext {
 			if !is_int(&first_child) {
 				return Ok( false );
 			}
+			// only leaves can be the slash and the denominator; canonicalizing a non-leaf here would move its children out of the tree
+			if !is_leaf(as_element(fraction_children[1])) || !is_leaf(as_element(fraction_children[2])) {
+				return Ok( false );
+			}
 			let slash_part = canonicalize.canonicalize_mrows(as_element(fraction_children[1]))?;
 			if name(&slash_part) == "mo" && as_text(slash_part) == "/" {
 				let denom = canonicalize.canonicalize_mrows(as_element(fraction_children[2]))?;
